@@ -22,6 +22,9 @@ fn main() {
     std::panic::set_hook(Box::new(|info| {
         if let Some(l) = info.location() {
             *util::LAST_PANIC_AT.lock().unwrap() = format!("{}:{}", l.file(), l.line());
+            if std::env::var("RLH_PANIC_LOG").is_ok() {
+                eprintln!("PANIC at {}:{}: {}", l.file(), l.line(), info);
+            }
         }
     }));
     for line in stdin.lock().lines() {
